@@ -4,6 +4,7 @@ import (
 	"fmt"
 	"go/token"
 	"go/types"
+	"os"
 	"strings"
 
 	"golang.org/x/tools/go/ssa"
@@ -14,7 +15,7 @@ import (
 func init() {
 	register("C08", PropCheck{
 		Title:      "No sequence of client inputs can crash the engine or corrupt a session",
-		Explain:    "Named crash and consistency mechanisms, decided structurally: (R1) every explicit panic in a library function reachable (CHA over the library) from Exec/Flush/Finish/Reset is classified in a frozen table - configuration misuse, excluded by the property's well-formedness assumptions, infeasible (checked: guarded by a test that an earlier return already excluded) or guarded at every call site (checked: State.Down is only called behind a comparison with state.MaxLevel) - and any other reachable panic site is a violation; (R2) navigation depth and cache scopes move in lockstep: Down/Push and Up/Pop are paired on every path and no other frame-count change happens in vm/engine; (R3) browsing out of range is an error, not a crash: every index and slice in Sizer.GetAt and Menu.applyPage/shiftMenu is proved in bounds by the zone engine, applyPage reports *BrowseError for an index beyond the page count, and Vm.Render answers a BrowseError by moving to the catch node and rendering again; (R4) every byte index in the input-validation functions of package vm is proved in bounds (arbitrary client bytes reach them); (R5) the cache's size accounting rules (C09 R4-R6: value classes of every CacheUseSize update, rollback before every error return, scope release) hold, so accounting matches contents after every request.",
+		Explain:    "Named crash and consistency mechanisms, decided structurally: (R1) every explicit panic in a library function reachable (CHA over the library) from Exec/Flush/Finish/Reset is classified by the condition that controls it, not by the function it sits in (so a guard moved into a helper keeps its class) - flag index against BitSize and self-move (excluded by the property's well-formedness assumptions), Db.Safe and Persister.Invalid (configuration misuse), infeasible (checked: guarded by a test that an earlier return already excluded), depth against MaxLevel (checked: every reachable call site of the exported state functions that reach it lies behind a comparison with state.MaxLevel) - and a reachable panic controlled by anything else is a violation; (R2) navigation depth and cache scopes move in lockstep: Down/Push and Up/Pop are paired on every path and no other frame-count change happens in vm/engine; (R3) browsing out of range is an error, not a crash: every index and slice in Sizer.GetAt and Menu.applyPage/shiftMenu is proved in bounds by the zone engine, applyPage reports *BrowseError for an index beyond the page count, and Vm.Render answers a BrowseError by moving to the catch node and rendering again; (R4) every byte index in the input-validation functions of package vm is proved in bounds (arbitrary client bytes reach them); (R5) the cache's size accounting rules (C09 R4-R6: value classes of every CacheUseSize update, rollback before every error return, scope release) hold, so accounting matches contents after every request.",
 		NotDecided: "absence of implicit panics (nil dereference, map of nil, index) in all other functions reachable from Exec - the bounds engine is applied to the decoder (C15), the input validators and the named renderer functions, not to the whole reachable set; 'can still be saved, loaded and continued' as a whole-history statement; input validation preceding every effect is C17.",
 		Assume:     []string{"calls through interfaces and function values (logging, formatting) do not write the fields of renderer objects being read (used to unify repeated loads of a field)"},
 		Run:        runC08,
@@ -240,6 +241,9 @@ func runC08(w *core.World, r *core.Report) {
 	r.Floor("R1", "functions reachable from the request entry points", len(reach), 100)
 	r.Floor("R1", "reachable explicit panics", np, 1)
 
+	if os.Getenv("VISCHECK_EXPLORE") == "implicit" {
+		exploreImplicit(w, r, reach)
+	}
 	// ---- R2 -----------------------------------------------------------------------------------
 	checkPairing(w, r, "R2")
 	for _, fn := range w.FuncsIn("engine") {
@@ -249,123 +253,7 @@ func runC08(w *core.World, r *core.Report) {
 	}
 
 	// ---- R3 -----------------------------------------------------------------------------------
-	anyContainer := func(t types.Type) bool { return true }
-	nb := 0
-	for _, fn := range w.FuncsIn("render") {
-		if fn.Signature.Recv() == nil || len(fn.Blocks) == 0 {
-			continue
-		}
-		rt := core.TypeName(fn.Signature.Recv().Type())
-		if rt != "*render.Sizer" && rt != "*render.Menu" && rt != "render.Menu" {
-			continue
-		}
-		r.Touch(core.QName(fn))
-		bd := core.NewBounds(fn, intBits(w))
-		for _, s := range bd.Sites(anyContainer) {
-			// varargs arrays built by the compiler for logging calls are trivially in bounds
-			nb++
-			key := fmt.Sprintf("%s: %s %s", core.QName(fn), s.Kind, s.Expr)
-			r.Check(s.OK, "R3", key, s.Instr.Pos(), "in bounds", s.Missing+": browsing to this page can panic instead of reporting an error")
-		}
-	}
-	r.Floor("R3", "bounds sites in the page cursor / menu functions", nb, 5)
-	{
-		ok := false
-		var apPos token.Pos
-		for _, ap := range w.FuncsIn("render") {
-			if ap.Signature.Recv() == nil || !strings.Contains(core.TypeName(ap.Signature.Recv().Type()), "render.Menu") {
-				continue
-			}
-			apPos = ap.Pos()
-			for _, b := range ap.Blocks {
-				for _, in := range b.Instrs {
-					bo, isBo := in.(*ssa.BinOp)
-					if !isBo {
-						continue
-					}
-					idxX, idxY := paramIndex(bo.X) == 1, paramIndex(bo.Y) == 1
-					_, fx, okx := core.LoadedField(bo.X)
-					_, fy, oky := core.LoadedField(bo.Y)
-					var beyond []core.Edge
-					switch {
-					case idxX && oky && fy == "pageCount" && (bo.Op == token.GEQ || bo.Op == token.LSS):
-						beyond = core.EdgesWhere(bo, bo.Op == token.GEQ)
-					case idxY && okx && fx == "pageCount" && (bo.Op == token.LEQ || bo.Op == token.GTR):
-						beyond = core.EdgesWhere(bo, bo.Op == token.LEQ)
-					}
-					for _, e := range beyond {
-						// every return behind this edge yields a *BrowseError
-						in, _ := core.Reach(core.Point{B: e.To(), I: 0}, func(x ssa.Instruction) bool {
-							ret, isRet := x.(*ssa.Return)
-							if !isRet {
-								return false
-							}
-							return !strings.Contains(ret.Results[0].Type().String()+valueTypeString(ret.Results[0]), "BrowseError")
-						}, nil)
-						if in == nil {
-							ok = true
-						}
-					}
-				}
-			}
-		}
-		r.Check(ok, "R3", "render.Menu: index beyond page count", apPos, "returns *BrowseError on idx >= pageCount", "a page index at or beyond the page count is not reported as *BrowseError (wrong or empty content, or a later crash)")
-	}
-	if vr := anchor(w, r, "vm", "(*Vm).Render"); vr != nil {
-		ok := false
-		var firstRender *ssa.Call
-		for _, c := range core.CallsTo(vr, "render.(*Page).Render") {
-			if cc, isC := c.(*ssa.Call); isC && firstRender == nil {
-				firstRender = cc
-			}
-		}
-		if firstRender != nil {
-			if ev := callErr(firstRender); ev != nil {
-				if refs := ev.Referrers(); refs != nil {
-					for _, u := range *refs {
-						ta, isTA := u.(*ssa.TypeAssert)
-						if !isTA || !strings.Contains(ta.AssertedType.String(), "BrowseError") {
-							continue
-						}
-						var okEdges []core.Edge
-						if ta.CommaOk {
-							if tr := ta.Referrers(); tr != nil {
-								for _, x := range *tr {
-									if ex, isEx := x.(*ssa.Extract); isEx && ex.Index == 1 {
-										okEdges = append(okEdges, core.EdgesWhere(ex, true)...)
-									}
-								}
-							}
-						}
-						for _, e := range okEdges {
-							// behind the edge: a VM run of MOVE _catch and a second render before any success return
-							cut := core.NewCut()
-							n := 0
-							for _, c := range core.CallsTo(vr, "render.(*Page).Render") {
-								if c.(ssa.Instruction) != ssa.Instruction(firstRender) {
-									cut.AddInstr(c.(ssa.Instruction))
-									n++
-								}
-							}
-							hasRun := false
-							for _, b := range dominatedRegion(e.To()) {
-								for _, x := range b.Instrs {
-									if c, isC := x.(ssa.CallInstruction); isC && core.IsCallTo(c, "vm.(*Vm).Run") {
-										hasRun = true
-									}
-								}
-							}
-							in, _ := core.Reach(core.Point{B: e.To(), I: 0}, isSuccessReturnPred(vr), cut)
-							if n > 0 && hasRun && in == nil {
-								ok = true
-							}
-						}
-					}
-				}
-			}
-		}
-		r.Check(ok, "R3", "vm.(*Vm).Render: BrowseError handling", vr.Pos(), "moves to the catch node and renders again", "a browse beyond the last page is not answered by moving to the catch node and rendering again")
-	}
+	checkBrowseBounds(w, r, "R3")
 
 	// ---- R4 -----------------------------------------------------------------------------------
 	if vi := anchor(w, r, "vm", "ValidInput"); vi != nil {
@@ -577,4 +465,196 @@ func depthIsLenMinusOne(g *ssa.Function) bool {
 	}
 	_, f, ok := core.LoadedField(lc.Call.Args[0])
 	return ok && f == "ExecPath"
+}
+
+// checkBrowseBounds (C08 R3, C02 R1): browsing out of range is an error, not a crash or wrong
+// content: every index and slice in the methods of Sizer and Menu is proved in bounds, the menu
+// reports *BrowseError for an index at or beyond the page count, and Vm.Render answers a
+// BrowseError by moving to the catch node and rendering again.
+func checkBrowseBounds(w *core.World, r *core.Report, rule string) {
+	anyContainer := func(t types.Type) bool { return true }
+	nb := 0
+	for _, fn := range w.FuncsIn("render") {
+		if fn.Signature.Recv() == nil || len(fn.Blocks) == 0 {
+			continue
+		}
+		rt := core.TypeName(fn.Signature.Recv().Type())
+		if rt != "*render.Sizer" && rt != "*render.Menu" && rt != "render.Menu" {
+			continue
+		}
+		r.Touch(core.QName(fn))
+		bd := core.NewBounds(fn, intBits(w))
+		for _, s := range bd.Sites(anyContainer) {
+			// varargs arrays built by the compiler for logging calls are trivially in bounds
+			nb++
+			key := fmt.Sprintf("%s: %s %s", core.QName(fn), s.Kind, s.Expr)
+			r.Check(s.OK, rule, key, s.Instr.Pos(), "in bounds", s.Missing+": browsing to this page can panic instead of reporting an error")
+		}
+	}
+	r.Floor(rule, "bounds sites in the page cursor / menu functions", nb, 5)
+	{
+		ok := false
+		var apPos token.Pos
+		for _, ap := range w.FuncsIn("render") {
+			if ap.Signature.Recv() == nil || !strings.Contains(core.TypeName(ap.Signature.Recv().Type()), "render.Menu") {
+				continue
+			}
+			apPos = ap.Pos()
+			for _, b := range ap.Blocks {
+				for _, in := range b.Instrs {
+					bo, isBo := in.(*ssa.BinOp)
+					if !isBo {
+						continue
+					}
+					idxX, idxY := paramIndex(bo.X) == 1, paramIndex(bo.Y) == 1
+					_, fx, okx := core.LoadedField(bo.X)
+					_, fy, oky := core.LoadedField(bo.Y)
+					var beyond []core.Edge
+					switch {
+					case idxX && oky && fy == "pageCount" && (bo.Op == token.GEQ || bo.Op == token.LSS):
+						beyond = core.EdgesWhere(bo, bo.Op == token.GEQ)
+					case idxY && okx && fx == "pageCount" && (bo.Op == token.LEQ || bo.Op == token.GTR):
+						beyond = core.EdgesWhere(bo, bo.Op == token.LEQ)
+					}
+					for _, e := range beyond {
+						// every return behind this edge yields a *BrowseError
+						in, _ := core.Reach(core.Point{B: e.To(), I: 0}, func(x ssa.Instruction) bool {
+							ret, isRet := x.(*ssa.Return)
+							if !isRet {
+								return false
+							}
+							return !strings.Contains(ret.Results[0].Type().String()+valueTypeString(ret.Results[0]), "BrowseError")
+						}, nil)
+						if in == nil {
+							ok = true
+						}
+					}
+				}
+			}
+		}
+		r.Check(ok, rule, "render.Menu: index beyond page count", apPos, "returns *BrowseError on idx >= pageCount", "a page index at or beyond the page count is not reported as *BrowseError (wrong or empty content, or a later crash)")
+	}
+	if vr := anchor(w, r, "vm", "(*Vm).Render"); vr != nil {
+		ok := false
+		var firstRender *ssa.Call
+		for _, c := range core.CallsTo(vr, "render.(*Page).Render") {
+			if cc, isC := c.(*ssa.Call); isC && firstRender == nil {
+				firstRender = cc
+			}
+		}
+		if firstRender != nil {
+			if ev := callErr(firstRender); ev != nil {
+				if refs := ev.Referrers(); refs != nil {
+					for _, u := range *refs {
+						ta, isTA := u.(*ssa.TypeAssert)
+						if !isTA || !strings.Contains(ta.AssertedType.String(), "BrowseError") {
+							continue
+						}
+						var okEdges []core.Edge
+						if ta.CommaOk {
+							if tr := ta.Referrers(); tr != nil {
+								for _, x := range *tr {
+									if ex, isEx := x.(*ssa.Extract); isEx && ex.Index == 1 {
+										okEdges = append(okEdges, core.EdgesWhere(ex, true)...)
+									}
+								}
+							}
+						}
+						for _, e := range okEdges {
+							// behind the edge: a VM run of MOVE _catch and a second render before any success return
+							cut := core.NewCut()
+							n := 0
+							for _, c := range core.CallsTo(vr, "render.(*Page).Render") {
+								if c.(ssa.Instruction) != ssa.Instruction(firstRender) {
+									cut.AddInstr(c.(ssa.Instruction))
+									n++
+								}
+							}
+							hasRun := false
+							for _, b := range dominatedRegion(e.To()) {
+								for _, x := range b.Instrs {
+									if c, isC := x.(ssa.CallInstruction); isC && core.IsCallTo(c, "vm.(*Vm).Run") {
+										hasRun = true
+									}
+								}
+							}
+							in, _ := core.Reach(core.Point{B: e.To(), I: 0}, isSuccessReturnPred(vr), cut)
+							if n > 0 && hasRun && in == nil {
+								ok = true
+							}
+						}
+					}
+				}
+			}
+		}
+		r.Check(ok, rule, "vm.(*Vm).Render: BrowseError handling", vr.Pos(), "moves to the catch node and renders again", "a browse beyond the last page is not answered by moving to the catch node and rendering again")
+	}
+
+}
+
+// exploreImplicit (diagnostic, VISCHECK_EXPLORE=implicit): implicit panic sites in the functions
+// reachable from the request entry points.
+func exploreImplicit(w *core.World, r *core.Report, reach map[*ssa.Function]bool) {
+	anyC := func(t types.Type) bool { return true }
+	nOK, nBad, nTA, nDiv := 0, 0, 0, 0
+	for _, fn := range w.LibFuncs {
+		if len(fn.Blocks) == 0 {
+			continue
+		}
+		bd := core.NewBounds(fn, intBits(w))
+		if !reach[fn] {
+			for _, in := range allInstrs(fn) {
+				if t, ok := in.(*ssa.Convert); ok {
+					slo, shi, ok1 := bd.TypeRange(t.X.Type())
+					tlo, thi, ok2 := bd.TypeRange(t.Type())
+					if ok1 && ok2 && (slo < tlo || shi > thi) {
+						lo, hi, ok := bd.RangeAt(t, t.X)
+						if !ok || lo < tlo || hi > thi {
+							fmt.Fprintf(os.Stderr, "IMPLICIT narrow-unreached %s [%s] %s(%s) operand in [%d,%d]\n", core.QName(fn), w.Pos(t.Pos()), t.Type(), t.X.Type(), lo, hi)
+						}
+					}
+				}
+			}
+			continue
+		}
+		for _, s := range bd.Sites(anyC) {
+			if s.OK {
+				nOK++
+				continue
+			}
+			if !s.Instr.Pos().IsValid() {
+				continue
+			}
+			nBad++
+			fmt.Fprintf(os.Stderr, "IMPLICIT bounds %s %s %s [%s] %s\n", core.QName(fn), s.Kind, s.Expr, w.Pos(s.Instr.Pos()), s.Missing)
+		}
+		for _, in := range allInstrs(fn) {
+			switch t := in.(type) {
+			case *ssa.TypeAssert:
+				if !t.CommaOk {
+					nTA++
+					fmt.Fprintf(os.Stderr, "IMPLICIT typeassert %s [%s] %s -> %s\n", core.QName(fn), w.Pos(t.Pos()), t.X.Type(), t.AssertedType)
+				}
+			case *ssa.Convert:
+				slo, shi, ok1 := bd.TypeRange(t.X.Type())
+				tlo, thi, ok2 := bd.TypeRange(t.Type())
+				if ok1 && ok2 && (slo < tlo || shi > thi) {
+					lo, hi, ok := bd.RangeAt(t, t.X)
+					if !ok || lo < tlo || hi > thi {
+						fmt.Fprintf(os.Stderr, "IMPLICIT narrow %s [%s] %s(%s) operand in [%d,%d]\n", core.QName(fn), w.Pos(t.Pos()), t.Type(), t.X.Type(), lo, hi)
+					}
+				}
+			case *ssa.BinOp:
+				if t.Op == token.QUO || t.Op == token.REM {
+					if _, isC := t.Y.(*ssa.Const); !isC {
+						if bt, ok := t.Y.Type().Underlying().(*types.Basic); ok && bt.Info()&types.IsInteger != 0 {
+							nDiv++
+							fmt.Fprintf(os.Stderr, "IMPLICIT div %s [%s]\n", core.QName(fn), w.Pos(t.Pos()))
+						}
+					}
+				}
+			}
+		}
+	}
+	fmt.Fprintf(os.Stderr, "IMPLICIT summary: bounds proved %d, unproved %d, unchecked type assertions %d, divisions %d\n", nOK, nBad, nTA, nDiv)
 }
